@@ -787,7 +787,7 @@ def under(path, roots):
 
 
 # =========================================================================== oracle
-LOW = ("lock-wf", "stale", "shown-not-sent")     # signatures a recorded finding may explain: reported last
+LOW = ("lock-wf",)     # the signature the recorded finding may explain: reported last
 
 
 def structure_violations(r, path, out):
@@ -957,36 +957,7 @@ def known(case, obs, verdict):
     subject = verdict.rsplit("[subject=", 1)[1].rstrip("]") if "[subject=" in verdict else "None"
     if sig == "lock-wf" and case["kind"] == "flow" and case.get("root_ex") and subject == "/wf":
         return "C10-workflow-inputs-unlocked"
-    if sig in ("stale", "shown-not-sent") and relink_diverges(case):
-        return "C10-relink-pushes-parent-value"
     return None
-
-
-def relink_diverges(case):
-    """cause predicate: the driven node is a nested macro value-linked to the enclosing macro's inputs, it is merged
-    from a pickled copy, and it was sent out with an input that differs from the enclosing macro's (an assignment
-    made directly at the nested node's input: links are one-directional, the enclosing input is not updated)"""
-    if case["kind"] != "cycle" or not case.get("rel"):
-        return False
-    kid = case["kids"][case["target"]]
-    if (kid.get("inner") or {}).get(case["rel"]) not in BOUNDARY or INNER[kid["cls"]][case["rel"]] != "macro":
-        return False
-    labels = C().MACROS[kid["cls"]][1]
-    outer = {l: (kid["ins"][j][1] if kid["ins"][j][0] == "c" else None) for j, l in enumerate(labels)}
-    inner = dict(outer)
-    out = False
-    for op in case["ops"]:
-        if op[0] == "set" and not out:
-            inner[op[1]] = op[2]
-        elif op[0] == "oset" and not out:
-            outer[op[1]] = inner[op[1]] = op[2]
-        elif op[0] == "run" and not out:
-            if inner != outer:
-                return True
-            out = True
-        elif op[0] == "complete":
-            out = False
-    return False
 
 
 # =========================================================================== generators
